@@ -6,6 +6,7 @@ import (
 	"runtime/debug"
 	"strconv"
 	"strings"
+	"time"
 	"unicode"
 
 	"evylang.dev/evy/pkg/lexer"
@@ -38,11 +39,12 @@ func init() {
 		Rule: "each case is a batch of inputs derived from one corpus/doc program: all token prefixes (sampled in quick), 1-4 token edits from a dictionary, splices, byte noise and located probes; " +
 			"an input is non-trivial if it differs from its base; distinct = distinct (edit kinds, normalised error-message multiset) shapes",
 		Assumptions: []string{
-			"inputs are capped at 64 KiB; a NUL character ends the input (docs/spec.md: NUL is not allowed) and is not judged",
+			"inputs are capped at 64 KiB; a NUL character is judged like any other (docs/spec.md: not allowed, so it must be reported, and the tokens must still tile the whole text)",
 			"'points at the right character' is judged only for seeded single mistakes with a known culprit position",
-			"termination is judged by a per-case watchdog (120 s for a batch that normally takes < 1 s), retried alone with 600 s",
+			"termination is judged by CPU time first (30 s of process CPU time without a lexer or parser call returning, normal cost of a call < 50 ms) and by a per-case wall-clock watchdog second (120 s for a batch that normally takes < 1 s, retried alone with 300 s); after three confirmed hangs the remaining cases are not explored",
 		},
 		NumCases: c03NumCases,
+		StallCPU: 30 * time.Second,
 		Setup: func(c *core.Ctx) error {
 			st := &c03State{}
 			st.files = corpus.Load(c.Repo)
@@ -153,6 +155,7 @@ var fixedTok = map[lexer.TokenType]string{
 
 // checkTokens lexes src and checks every token's position and type against the text.
 func checkTokens(c *core.Ctx, src string) (ok bool) {
+	c.Progress()
 	c.Journal(src)
 	defer func() {
 		if p := recover(); p != nil {
